@@ -22,10 +22,10 @@ type ConcreteModel struct {
 	Ints  map[string]uint64 `json:"ints"`
 	Bools map[string]bool   `json:"bools"`
 	// informational
-	Property  string `json:"property,omitempty"`
-	Assertion string `json:"assertion,omitempty"`
-	Job       string `json:"job,omitempty"`
-	Pkg       string `json:"pkg,omitempty"`
+	Property  string   `json:"property,omitempty"`
+	Assertion string   `json:"assertion,omitempty"`
+	Job       string   `json:"job,omitempty"`
+	Pkg       string   `json:"pkg,omitempty"`
 	Files     []string `json:"files,omitempty"`
 }
 
